@@ -26,9 +26,11 @@ Retained(n, newest, maxBuf) == n > newest - maxBuf
 NewestOf(upl, t) == LET ns == { u.n : u \in { x \in upl : x.t = t } } IN IF ns = {} THEN -1 ELSE SetMax(ns)
 HasFile(listing, n) == \E i \in DOMAIN listing : listing[i].n = n
 HasFileWith(listing, n, h) == \E i \in DOMAIN listing : listing[i].n = n /\ listing[i].h = h
-\* the accepted uploads that violate C17.stored in an observation; byteExact: unshifted channel, timescale unchanged
-NotStored(upl, files, maxBuf, byteExact) ==
-  { u \in upl : /\ Retained(u.n, NewestOf(upl, u.t), maxBuf)
+\* the accepted uploads that violate C17.stored in an observation; byteExact: unshifted channel, timescale unchanged.
+\* tried: [t, n] of EVERY media upload sent so far, accepted or refused - the storage also makes room when an upload
+\* is refused later on, so "newest" is the highest number the track has tried to deliver (the weaker demand).
+NotStored(upl, tried, files, maxBuf, byteExact) ==
+  { u \in upl : /\ Retained(u.n, NewestOf(tried, u.t), maxBuf)
                 /\ ~ (IF byteExact THEN HasFileWith(files[u.t], u.n, u.h) ELSE HasFile(files[u.t], u.n)) }
 
 (* ---- C17.listed ----
@@ -53,6 +55,19 @@ ListedWrongTime(as, upl) ==
   LET segs == Expand(as.S) IN
   { <<r, k>> \in Range(as.reps) \X (FirstNr(as)..LastNr(as)) :
        \E u \in upl : u.t = r /\ u.n = k /\ segs[k - FirstNr(as) + 1] # <<u.dts, u.dur>> }
+\* (rep, k) pairs the MPD lists although no upload of that number was ACCEPTED for the Representation (a refused /
+\* aborted upload must leave no trace in what is published)
+ListedNotAccepted(as, upl, known) ==
+  { <<r, k>> \in Range(as.reps) \X (FirstNr(as)..LastNr(as)) : r \in known /\ ~ \E u \in upl : u.t = r /\ u.n = k }
+\* (rep, k) pairs whose listed <<t, d>> differ from what the stored file itself says when it is decoded
+\* (listing entries [n, h, ok, dts, dur]: decode time of the first fragment, sum of the durations of all fragments);
+\* judged for the numbers whose file is on disk
+FileOf(listing, n) == listing[CHOOSE i \in DOMAIN listing : listing[i].n = n]
+ListedWrongDecoded(as, files, known) ==
+  LET segs == Expand(as.S) IN
+  { <<r, k>> \in Range(as.reps) \X (FirstNr(as)..LastNr(as)) :
+       r \in known /\ HasFile(files[r], k) /\
+       LET f == FileOf(files[r], k) IN ~ (f.ok /\ segs[k - FirstNr(as) + 1] = <<f.dts, f.dur>>) }
 \* the same two demands on the explorer's abstraction of the MPD (<<first, last>>, reps, files as sets of numbers)
 ListedModelOK(range, reps, fileNrs) == \A r \in reps : \A k \in range[1]..range[2] : k \in fileNrs[r]
 
